@@ -366,6 +366,8 @@ int main(int argc, char** argv)
       if(p == std::string::npos) { printf("REPLAY-ERROR no case\n"); return 2; }
       p += 9;
       std::string cs = doc.substr(p, doc.find('"', p) - p);
+      if(cs == "census")
+         return replay_case([&](Ctx & c) { for(auto& e : census()) if(!census_allowed(e)) c.violation("census:new-writable-global:" + e.substr(e.find(' ') + 1, 90), "census", e); });
       if(cs.compare(0, 2, "w=") != 0) { printf("REPLAY-DONE violations=0\n"); return 0; }
       std::vector<int> ws, prefix;
       size_t q = cs.find(";sched=");
